@@ -807,6 +807,7 @@ class Nesting:
         self.assumed: list[tuple[str, str, str, str]] = []
         self.escapes: set[tuple[str, str]] = set()
         self._atoms: set[str] = set()
+        self.last_raw_returns: dict = {}
 
     # -- resolution ---------------------------------------------------------
     def method(self, name: str) -> FunctionInfo | None:
@@ -964,10 +965,7 @@ class Nesting:
                     return True
             return False
 
-        if isinstance(st, ast.Return) and st.value is not None:
-            v = st.value
-            if is_n(v) or direct([v]) or (isinstance(v, ast.BinOp) and (direct([v.left]) or direct([v.right]))):
-                w += 1
+        # `return n` hands the node to the caller: judged in track() (a transfer only if it was not attached before)
         if isinstance(st, ast.AugAssign) and isinstance(st.op, ast.Add) and not is_n(st.target) and direct([st.value]):
             w += 1
         if isinstance(st, (ast.Assign, ast.AnnAssign)) and direct([getattr(st, "value", None)]):
@@ -1053,7 +1051,45 @@ class Nesting:
                 return False  # the new value is derived from the old one: same object role continues
             return True
 
-        return _path_counts(cfg, start, weight, is_stop)
+        def returns_it(n) -> bool:
+            if not (isinstance(n, ast.Return) and n.value is not None):
+                return False
+            v = n.value
+            cands = [v] + ([v.left, v.right] if isinstance(v, ast.BinOp) else []) + (list(v.elts) if isinstance(v, (ast.List, ast.Tuple)) else [])
+            for c in cands:
+                if isinstance(c, ast.Name) and c.id == name:
+                    return True
+                if isinstance(c, (ast.List, ast.Tuple)) and any(isinstance(x, ast.Name) and x.id == name for x in c.elts):
+                    return True
+            return False
+
+        raw = _path_counts(cfg, start, weight, lambda n: is_stop(n) or returns_it(n))
+        self.last_raw_returns = {k: set(v) for k, v in raw.items() if returns_it(k)}
+        # returning an unattached node transfers the obligation to the caller (counts as its one attachment);
+        # returning a node that is already attached just hands out a reference
+        return {k: ({c if c >= 1 else 1 for c in v} if returns_it(k) else v) for k, v in raw.items()}
+
+    def returned_node_kind(self, m: FunctionInfo) -> str:
+        """'fresh' if the node a node-returning helper returns still has to be attached by the caller,
+        'attached' if the helper attached it itself on every path."""
+        key = ("retkind", m.fq)
+        if key in self.memo:
+            return self.memo[key]
+        self.memo[key] = "fresh"
+        kinds = set()
+        for r in m.local_nodes():
+            if isinstance(r, ast.Return) and isinstance(r.value, ast.Name):
+                nm = r.value.id
+                starts = [st for st in m.local_nodes() if isinstance(st, (ast.Assign, ast.AnnAssign)) and getattr(st, "value", None) is not None and _binds(st, nm) is not False and self.is_producer(st.value, m)]
+                for st in starts:
+                    self.track(m, st, nm)
+                    for k, v in self.last_raw_returns.items():
+                        if k is r:
+                            kinds |= {"attached" if c >= 1 else "fresh" for c in v}
+        if len(kinds) > 1:
+            raise Unsupported(f"{m.fq} returns its node attached on some paths and unattached on others")
+        self.memo[key] = kinds.pop() if kinds else "fresh"
+        return self.memo[key]
 
     # -- children rendered once ---------------------------------------------------
     # The only silent way not to render the children of a link is that the link is *implicit*:
@@ -1558,9 +1594,14 @@ def r2_nesting_discipline(corpus: Corpus, rep: Report, tier: str):
                 if not cfg.is_reachable(st):
                     continue
                 res = an.track(fi, st, name)
+                pre = 0
+                if _is_self_call(st.value) and _node_class(st.value, fi.module) is None:
+                    hm = an.method(st.value.func.attr)
+                    if hm is not None and an.returned_node_kind(hm) == "attached":
+                        pre = 1  # the helper attached the node it returns: the caller must not attach it again
                 counts = set()
                 for v in res.values():
-                    counts |= v
+                    counts |= {min(2, c + pre) for c in v}
                 site = fi.module.site(st)
                 cname = prod.rsplit(".", 1)[-1]
                 if not res:
@@ -2029,6 +2070,33 @@ def _walk_lossless(e: ast.AST):
         stack.extend(ast.iter_child_nodes(n))
 
 
+def _token_helpers(an: "Nesting", fi: FunctionInfo, tok: str, depth: int = 0, seen: set | None = None) -> list[tuple[FunctionInfo, str]]:
+    """(function, its token parameter) for ``fi`` and the helper methods the token is handed on to (two levels),
+    other handlers (render_*) excluded."""
+    seen = seen if seen is not None else set()
+    out = [(fi, tok)]
+    seen.add(fi.fq)
+    if depth >= 2:
+        return out
+    for c in fi.local_nodes():
+        if isinstance(c, ast.Call) and (_is_self_call(c) or isinstance(c.func, ast.Call)) and any(isinstance(a, ast.Name) and a.id == tok for a in list(c.args) + [k.value for k in c.keywords]):
+            for m in an.call_targets_safe(c, fi):
+                if m.fq in seen or m.is_lambda or m.name.startswith("render_") or m.name in ("add_line_and_source_path", "copy_attributes", "create_warning"):
+                    continue
+                for p in an._param_for_arg(c, m, lambda x: isinstance(x, ast.Name) and x.id == tok):
+                    if p in _tok_params(m):
+                        out.extend(_token_helpers(an, m, p, depth + 1, seen))
+    return out
+
+
+def _sinks_closure(an: "Nesting", fi: FunctionInfo, tok: str, corpus: Corpus):
+    out = []
+    for holder, htok in _token_helpers(an, fi, tok):
+        for call, texpr, kind in _content_sinks(holder, corpus):
+            out.append((holder, htok, call, texpr, kind))
+    return out
+
+
 def _reaches(e: ast.AST, fi: FunctionInfo, an: Nesting, is_source, depth: int = 0, lossless: bool = False) -> bool:
     """Backward data slice of ``e`` through local assignments (and, for parameters, the self-call sites)
     reaches an expression satisfying ``is_source``. With ``lossless`` the slice may not pass through a name or
@@ -2057,7 +2125,7 @@ def _reaches(e: ast.AST, fi: FunctionInfo, an: Nesting, is_source, depth: int = 
                 for st in fi.local_nodes():
                     if isinstance(st, (ast.For, ast.comprehension)) and any(isinstance(t, ast.Name) and t.id == n.id for t in ast.walk(st.target)):
                         work.append(st.iter)
-                if n.id in fi.params and n.id != "self" and depth < 2 and _param_annotation(fi, n.id) == "str":
+                if n.id in fi.params and n.id != "self" and depth < 2 and _is_str_annotation(_param_annotation(fi, n.id)):
                     ps = fi.params
                     for g in an.scope():
                         for c in g.local_nodes():
@@ -2077,6 +2145,15 @@ def _param_annotation(fi: FunctionInfo, name: str) -> str | None:
         if p.arg == name:
             return unparse(p.annotation) if p.annotation is not None else None
     return None
+
+
+def _is_str_annotation(ann: str | None) -> bool:
+    """``str``, ``str | None``, ``Optional[str]`` - a plain string parameter (not a mapping/sequence of strings)."""
+    if not ann:
+        return False
+    parts = [p.strip() for p in ann.replace("Optional[", "").replace("]", "").replace("None |", "|").split("|")]
+    parts = [p for p in parts if p and p != "None"]
+    return parts == ["str"]
 
 
 def _attr_source(attr: str):
@@ -2102,9 +2179,27 @@ DEST_KWARGS = {"reftarget": "href"}
 PART_ONLY_OK = {
     "sphinx.addnodes.download_reference": "a download points at a file; a '#fragment' has no meaning for it (Sphinx-specific node)",
 }
-DEST_EXEMPT = {
-    "DocutilsRenderer.render_link_inventory": ("match", "the destination is the matched inventory entry's location (base_url + loc), selected by the href"),
-}
+INVENTORY_DEST_WHY = "the destination is the matched inventory entry's location (base_url + loc), selected by the href"
+
+
+def _from_inventory_match(value: ast.expr, fi: FunctionInfo, an: "Nesting") -> bool:
+    """The value is computed from an inventory match: from the result of get_inventory_matches(), or from a parameter
+    typed as an inventory match (InvMatch) that the callers fill from it."""
+    if _reaches(value, fi, an, lambda n, f: isinstance(n, ast.Call) and _is_self_call(n, "get_inventory_matches")):
+        return True
+    seen: set[str] = set()
+    work = [value]
+    while work:
+        x = work.pop()
+        for n in ast.walk(x):
+            if isinstance(n, ast.Name) and n.id not in seen:
+                seen.add(n.id)
+                ann = _param_annotation(fi, n.id) if n.id in fi.params else None
+                if ann and "InvMatch" in ann:
+                    return True
+                work.extend(_all_defs(fi, n.id))
+    return False
+
 
 
 def _alt_contributions(fi: FunctionInfo) -> tuple[dict[str, tuple], tuple]:
@@ -2589,7 +2684,7 @@ def r3_verbatim_leaves(corpus: Corpus, rep: Report, tier: str):
                 continue  # inherited: judged in the defining class
             rep.saw_function(fi.fq)
             tok = _tok_param(fi)
-            sinks = _content_sinks(fi, corpus)
+            sinks = _sinks_closure(an, fi, tok, corpus)
             delegates = [c for c in fi.local_nodes() if isinstance(c, ast.Call) and _is_self_call(c) and c.func.attr.startswith("render_") and c.func.attr[7:] in LEAF_TYPES and c.args and isinstance(c.args[0], ast.Name) and c.args[0].id == tok]
             if not sinks and not delegates:
                 rep.error("C02.R3", f"{fi.fq}: no construct that turns token content into leaf text was recognised")
@@ -2598,16 +2693,17 @@ def r3_verbatim_leaves(corpus: Corpus, rep: Report, tier: str):
             for c in delegates:
                 n_leaf += 1
                 rep.ok("C02.R3", f"{fi.fq}|delegates to {c.func.attr}", fi.module.site(c), "same token handed on")
-            for call, texpr, kind in sinks:
+            for holder, htok, call, texpr, kind in sinks:
                 n_leaf += 1
                 k0 = f"{fi.fq}|text of {kind}"
                 ordn[k0] = ordn.get(k0, 0) + 1
                 k = k0 + (f"#{ordn[k0]}" if ordn[k0] > 1 else "")
-                why = _verbatim(texpr, fi, tok, 0, an)
+                why = _verbatim(texpr, holder, htok, 0, an)
+                via = "" if holder is fi else f" (in {holder.name})"
                 if why is None:
-                    rep.ok("C02.R3", k, fi.module.site(call), f"{tok}.content")
+                    rep.ok("C02.R3", k, holder.module.site(call), f"{htok}.content{via}")
                 else:
-                    rep.violation("C02.R3", k, fi.module.site(call), f"the text of the {kind} leaf built by {fi.qualname} is {why}, not {tok}.content verbatim")
+                    rep.violation("C02.R3", k, holder.module.site(call), f"the text of the {kind} leaf built by {fi.qualname}{via} is {why}, not {htok}.content verbatim")
     # the highlighter keeps the text whether or not the lexer splits it
     hl = corpus.func(f"{RENDERER}.create_highlighted_code_block")
     rep.saw_function(hl.fq)
@@ -2713,11 +2809,9 @@ def r3_verbatim_leaves(corpus: Corpus, rep: Report, tier: str):
                 ordn[k0] = ordn.get(k0, 0) + 1
                 k = k0 + (f"#{ordn[k0]}" if ordn[k0] > 1 else "")
                 n_dest += 1
-                ex = DEST_EXEMPT.get(fi.qualname)
-                if ex is not None and key_name == "refuri":
-                    if _mentions(value, ex[0]) and _reaches(value, fi, an, lambda n, f: isinstance(n, ast.Call) and _is_self_call(n, "get_inventory_matches")):
-                        rep.assumed("C02.R3", k, fi.module.site(site_node), ex[1])
-                        return
+                if key_name == "refuri" and _from_inventory_match(value, fi, an):
+                    rep.assumed("C02.R3", k, fi.module.site(site_node), INVENTORY_DEST_WHY)
+                    return
                 enc = _encoders_on_slice(value, fi)
                 if enc and _reaches(value, fi, an, _attr_source(attr)):
                     ke = f"{fi.fq}|{key_name} is stored without output-format escaping"
@@ -2781,14 +2875,19 @@ def r3_verbatim_leaves(corpus: Corpus, rep: Report, tier: str):
     _generic_copy_not_truthy(corpus, rep)
     for q, field in (("DocutilsRenderer.render_fence", "info"), ("DocutilsRenderer.render_code_block", "info")):
         f = b.func(q)
-        for c in f.local_nodes():
-            if isinstance(c, ast.Call) and _is_self_call(c, "create_highlighted_code_block"):
-                lx = arg_or_kw(c, 1, "lexer_name")
-                k = f"{f.fq}|code language carried over from token.info"
-                if lx is not None and _reaches(lx, f, an, _field_source(field)):
-                    rep.ok("C02.R3", k, b.site(c), f"lexer name `{short(lx, 30)}` derives from token.info")
-                else:
-                    rep.violation("C02.R3", k, b.site(c), f"the language handed to the highlighter (`{short(lx, 30) if lx is not None else 'none'}`) does not derive from the info string of the code token")
+        n_lang = 0
+        for holder, _htok in _token_helpers(an, f, _tok_param(f)):
+            for c in holder.local_nodes():
+                if isinstance(c, ast.Call) and _is_self_call(c, "create_highlighted_code_block"):
+                    n_lang += 1
+                    lx = arg_or_kw(c, 1, "lexer_name")
+                    k = f"{f.fq}|code language carried over from token.info" + ("" if n_lang == 1 else f"#{n_lang}")
+                    if lx is not None and _reaches(lx, holder, an, _field_source(field)):
+                        rep.ok("C02.R3", k, holder.module.site(c), f"lexer name `{short(lx, 30)}` derives from token.info")
+                    else:
+                        rep.violation("C02.R3", k, holder.module.site(c), f"the language handed to the highlighter (`{short(lx, 30) if lx is not None else 'none'}`) does not derive from the info string of the code token")
+        if not n_lang:
+            rep.error("C02.R3", f"{f.fq}: no call of create_highlighted_code_block found in the handler or its helpers")
     rep.expect_min("C02.R3", 30, "leaf sinks + highlighter flows + destination stores")
 
 
@@ -3069,9 +3168,10 @@ def _linear(e: ast.AST, level: str, mapexpr: str) -> tuple[int, int, int] | None
     return None
 
 
-def _keep_table(cond: ast.expr, kvar: str, level: str, keep_when: bool) -> str | None:
+def _keep_table(cond: ast.expr, kvar: str, level: str, keep_when: bool, level_set_after: bool = False) -> str | None:
     """Decision table of a filter over (key - level) in -3..3: entries must be kept iff key <= level.
-    ``keep_when``: the truth value of ``cond`` that keeps an entry. Returns a complaint or None."""
+    ``keep_when``: the truth value of ``cond`` that keeps an entry. ``level_set_after``: map[level] is stored after the
+    pruning, so whether the filter keeps the key `level` itself does not matter. Returns a complaint or None."""
     for lv in (1, 3):
         for k in range(0, 8):
             try:
@@ -3079,6 +3179,8 @@ def _keep_table(cond: ast.expr, kvar: str, level: str, keep_when: bool) -> str |
             except _NoValue as ex:
                 raise Unsupported(f"level-state filter `{short(cond, 50)}` not evaluable ({ex})") from None
             kept = val == keep_when
+            if level_set_after and k == lv:
+                continue
             if kept != (k <= lv):
                 if kept:
                     return f"the entry of level {k} survives a heading of level {lv}: a later heading can be attached beneath that already closed, deeper section, so its text precedes text that comes before it in the source"
@@ -3201,6 +3303,8 @@ def r6_section_level_state(corpus: Corpus, rep: Report, tier: str):
         rep.violation("C02.R6", k, f.module.site(st), "deeper levels are removed only on some paths through update_section_level_state")
         return
     complaint = None
+    # is map[level] = section executed after the pruning on every path? then the pruned map gets the level back
+    set_after = cfg.dominates(st, store) and st is not store
     if kind == "rebuild":
         comp = st.value
         gen = comp.generators[0]
@@ -3218,7 +3322,7 @@ def r6_section_level_state(corpus: Corpus, rep: Report, tier: str):
         if not ident:
             complaint = "the rebuilt map does not keep each kept level with its own section"
         else:
-            complaint = _keep_table(gen.ifs[0], kvar, p_lvl, keep_when=True)
+            complaint = _keep_table(gen.ifs[0], kvar, p_lvl, keep_when=True, level_set_after=set_after)
     else:
         loop = st
         if not isinstance(loop.target, ast.Name):
@@ -3269,7 +3373,7 @@ def r6_section_level_state(corpus: Corpus, rep: Report, tier: str):
                 complaint = "every level is removed"
             else:
                 test = conds[0][0] if len(conds) == 1 else ast.BoolOp(op=ast.And(), values=[c for c, _ in conds])
-                complaint = _keep_table(test, kvar, p_lvl, keep_when=False)
+                complaint = _keep_table(test, kvar, p_lvl, keep_when=False, level_set_after=set_after)
     if complaint:
         rep.violation("C02.R6", k, f.module.site(st), complaint)
     else:
